@@ -5,6 +5,8 @@
 
 """Module containing the BiLinearForm and LinearForm classes used to construct arbitrary fem matrices."""
 
+import copyreg
+import sys
 from abc import ABC, abstractmethod
 from typing import Callable, TYPE_CHECKING
 import numpy as np
@@ -22,9 +24,19 @@ class _Form(ABC):
 
     def __init__(self, form: Callable[..., FeArray.FeArrayALike]):
         self._form = form
+        self.__module__ = getattr(form, "__module__", type(self).__module__)
 
     def __call__(self, *args, **kwds):
         return self._form(*args, **kwds)
+
+    def __reduce__(self):
+        # used as a decorator, the form takes the place of its function under the function's name:
+        # the function can no longer be pickled by reference, the form is (as the object of that name).
+        name = getattr(self._form, "__qualname__", None)
+        module = sys.modules.get(self.__module__)
+        if name is not None and getattr(module, name, None) is self:
+            return name
+        return copyreg.__newobj__, (type(self),), self.__dict__
 
     @abstractmethod
     def Integrate_e(self, field: "Field") -> np.ndarray:
